@@ -120,6 +120,19 @@ def unify(t1, t2, name_re):
     return all(compatible(tok_language(x, name_re), tok_language(y, name_re), name_re) for x, y in zip(t1, t2))
 
 
+def _template_arg(fn, call):
+    """The f-string a `Variable(...)` call is built from: the argument itself, or the single local
+    assignment it names."""
+    if not call.args:
+        return None
+    a = call.args[0]
+    if isinstance(a, ast.Name):
+        vals = [n.value for n in ast.walk(fn) if isinstance(n, ast.Assign) and len(n.targets) == 1 and isinstance(n.targets[0], ast.Name) and n.targets[0].id == a.id]
+        if len(vals) == 1:
+            a = vals[0]
+    return a if isinstance(a, ast.JoinedStr) else None
+
+
 def run(ctx):
     ix = SourceIndex(ctx.src)
     ctx.rule("C01.identifier-hygiene", "no two name templates (or a template and a raw user name) can produce the same identifier", min_instances=60)
@@ -156,8 +169,8 @@ def run(ctx):
         if f.module != NAMES:
             continue
         for n in ast.walk(f.node):
-            if isinstance(n, ast.Call) and u(n.func) == "Variable" and n.args and isinstance(n.args[0], ast.JoinedStr):
-                templates[f"_names.py:{f.name}"] = fstring_tokens(n.args[0], kinds_for(f.node))
+            if isinstance(n, ast.Call) and u(n.func) == "Variable" and _template_arg(f.node, n) is not None:
+                templates[f"_names.py:{f.name}"] = fstring_tokens(_template_arg(f.node, n), kinds_for(f.node))
     # `reference` really is f"{int}_{name}": check the constructors of identifiable tensors
     ctx.instance("C01.identifier-hygiene")
     ids = []
@@ -181,8 +194,8 @@ def run(ctx):
     for m in ("name", "loop_name"):
         fn = ix.func(f"{BUCKET}.{m}").node
         for n in ast.walk(fn):
-            if isinstance(n, ast.Call) and u(n.func) == "Variable" and n.args and isinstance(n.args[0], ast.JoinedStr):
-                templates[f"_bucket.py:{m}"] = fstring_tokens(n.args[0], bucket_kind)
+            if isinstance(n, ast.Call) and u(n.func) == "Variable" and _template_arg(fn, n) is not None:
+                templates[f"_bucket.py:{m}"] = fstring_tokens(_template_arg(fn, n), bucket_kind)
     templates["raw user name (index / tensor)"] = [[[("U",)]]]
     if len(templates) < 14:
         raise AnalysisError(f"only {len(templates)} identifier templates extracted")
